@@ -282,6 +282,9 @@ pub struct Cfg {
     /// sinc types: which interpolation kernel drives the resampler (Auto = the constructor's own run-time
     /// dispatch; otherwise the public kernel type is built explicitly and passed to new_with_interpolator)
     pub kernel: Kernel,
+    /// the harness drives the instance through `&mut dyn VecResampler` (the object-safe wrapper trait)
+    /// for every method that trait has
+    pub via_dyn: bool,
 }
 
 #[derive(Clone, Copy, Debug, PartialEq, Eq, Hash)]
@@ -320,6 +323,7 @@ impl Default for Cfg {
             fs_out: 48000,
             sub_chunks: 1,
             kernel: Kernel::Auto,
+            via_dyn: false,
         }
     }
 }
@@ -425,6 +429,9 @@ impl Cfg {
             if self.kernel != Kernel::Auto {
                 o.set("interpolator_kernel", J::s(self.kernel.name()));
             }
+        }
+        if self.via_dyn {
+            o.set("driven_through_dyn_vecresampler", J::b(true));
         }
         if self.kind.is_fast() {
             o.set("degree", J::s(self.degree.name()));
@@ -685,5 +692,8 @@ pub fn gen_cfg_kind(rng: &mut Rng, p: &GenProfile, kind: Kind) -> Cfg {
             }
         }
     }
+    // 8 % of all configurations (every type, every monitor): calls and getters go through the object-safe
+    // VecResampler wrapper instead of the Resampler trait
+    c.via_dyn = rng.chance(0.08);
     c
 }
